@@ -77,8 +77,8 @@ func checkBridge(c BridgeCase, cv *cov) (v *evid.Violation) {
 			if n < 0 {
 				n = 0
 			}
-			if n > 20000 {
-				n = 20000
+			if n > 200000 {
+				n = 200000
 			}
 			switch op.K {
 			case "w_tr", "w_buf":
@@ -149,15 +149,24 @@ func checkBridge(c BridgeCase, cv *cov) (v *evid.Violation) {
 				}
 			case "reg_check":
 				regCheck = true
+				calls := 0
+				var verdict error
 				apache.RegisterCheckTStruct(func(x interface{}) error {
+					calls++
 					if p, ok := x.(*int); !ok || *p != i {
 						return errors.New("wrong argument")
 					}
-					return retErr
+					return verdict
 				})
-				if err := apache.CheckTStruct(&i); err != retErr {
-					v = evid.Failf("step %d CheckTStruct with a registered callback returned %v, want the callback's result", i, err)
-					return
+				// several calls with values of the same type and changing verdicts: each call must reach the
+				// callback and return what it returned
+				for k, want := range []error{nil, retErr, nil, nil, retErr} {
+					verdict = want
+					arg := i
+					if err := apache.CheckTStruct(&arg); err != want || calls != k+1 {
+						v = evid.Failf("step %d CheckTStruct call %d with a registered callback returned %v (callback invoked %d times), want the callback's result %v", i, k+1, err, calls, want)
+						return
+					}
 				}
 			case "unreg_check":
 				regCheck = false
@@ -251,6 +260,19 @@ func checkBridge(c BridgeCase, cv *cov) (v *evid.Violation) {
 			}
 		}
 		// generic transport
+		shared := &rwReadable{}
+		sharedTr := apache.NewDefaultTransport(shared)
+		for _, n := range append(append([]int{}, c.Readable...), 0, 5, -1, 7) {
+			shared.n = n
+			wantShared := uint64(math.MaxUint64)
+			if n > 0 {
+				wantShared = uint64(n)
+			}
+			if got := sharedTr.RemainingBytes(); got != wantShared {
+				v = evid.Failf("generic transport (one transport, readable length changing over time) with ReadableLen()=%d: RemainingBytes()=%d, want %d", n, got, wantShared)
+				return
+			}
+		}
 		for _, n := range c.Readable {
 			d := apache.NewDefaultTransport(&rwReadable{n: n})
 			want := uint64(math.MaxUint64)
@@ -300,7 +322,7 @@ var bridgeOps = []string{"w_tr", "w_tr", "w_buf", "w_buf", "r_tr", "r_tr", "r_bu
 func genBridgeCase(t *rapid.T) BridgeCase {
 	c := BridgeCase{ViaDefault: rapid.Bool().Draw(t, "viaDefault")}
 	c.Ops = rapid.SliceOfN(rapid.Custom(func(t *rapid.T) TOp {
-		return TOp{K: rapid.SampledFrom(bridgeOps).Draw(t, "k"), N: rapid.OneOf(rapid.IntRange(0, 70), rapid.IntRange(0, 10000)).Draw(t, "n")}
+		return TOp{K: rapid.SampledFrom(bridgeOps).Draw(t, "k"), N: rapid.OneOf(rapid.IntRange(0, 70), rapid.IntRange(0, 10000), rapid.SampledFrom([]int{4096, 65535, 65536, 65537, 70000, 140000})).Draw(t, "n")}
 	}), 1, 40).Draw(t, "ops")
 	c.Readable = rapid.SliceOfN(rapid.OneOf(rapid.Int(), rapid.SampledFrom([]int{0, 1, -1, math.MaxInt64, math.MinInt64, math.MaxInt32})), 0, 3).Draw(t, "readable")
 	return c
